@@ -35,8 +35,35 @@ NAN = float("nan")
 # is compared with ==, never called)
 # (then: UNHASHABLE stored values that equal a hashable sought value of another type - bytearray == bytes,
 # set == frozenset - and a list, which equals only lists)
+class LooseTuple(tuple):
+    """
+    A hand-written value class on top of a builtin: equality ignores the provenance field, and - as in most such
+    classes - only __eq__ / __hash__ are defined.  The inherited tuple.__ne__ still compares every field, so for two
+    records that differ in provenance only, `a == b` and `a != b` are both true.  "Equals" in the property is `==`.
+    """
+
+    def __eq__(self, other):
+        return self[0] == other[0] if isinstance(other, LooseTuple) else NotImplemented
+
+    def __hash__(self):
+        return hash(self[0])
+
+
+class LooseDict(dict):
+    """The dict flavour of the same: keys starting with an underscore are bookkeeping and do not count."""
+
+    def __eq__(self, other):
+        if not isinstance(other, dict):
+            return NotImplemented
+        return ({k: v for k, v in self.items() if not str(k).startswith("_")}
+                == {k: v for k, v in other.items() if not str(k).startswith("_")})
+
+    __hash__ = None
+
+
 STORED = [0, 1, 2, 1000, "ab", ("x", 1), None, True, 2.5, "", -1, 10 ** 20, NAN, zoo.r_accept, zoo.r_reject, len, zoo.VSub,
-          bytearray(b"xy"), {1, 2}, [1, [2]], b"xy", frozenset({1, 2})]
+          bytearray(b"xy"), {1, 2}, [1, [2]], b"xy", frozenset({1, 2}),
+          LooseTuple(("rec", "read from a.csv")), LooseDict({"k": 1, "_seen": 3})]
 
 
 def sought(i):
@@ -46,6 +73,10 @@ def sought(i):
         return v  # the identical object: identity does not imply equality, nan != nan, so nothing matches
     if isinstance(v, bool) or v is None or callable(v):
         return v
+    if isinstance(v, LooseTuple):
+        return LooseTuple((v[0], "typed in by hand"))   # equal; and unequal too, if one asks with !=
+    if isinstance(v, LooseDict):
+        return {"k": 1, "_seen": 0, "_by": "someone else"}  # a plain dict the stored record equals
     if isinstance(v, bytearray):
         return bytes(v)            # equal, hashable, another type
     if isinstance(v, set):
@@ -113,7 +144,7 @@ def run_case(ctx, spec, si, attr, vi, absent=None, _shrinking=False, cache=False
 
 def _stored_ref(i):
     """JSON-able stand-in for a stored value that JSON cannot carry (a callable)."""
-    return ["@stored", i] if callable(STORED[i]) or isinstance(STORED[i], (bytearray, bytes, set, frozenset, list)) else STORED[i]
+    return ["@stored", i] if callable(STORED[i]) or isinstance(STORED[i], (bytearray, bytes, set, frozenset, list, LooseTuple, LooseDict)) else STORED[i]
 
 
 def _resolved(spec):
